@@ -5,7 +5,9 @@ import NmVerif.NN.Conv2dLemmas
   C17 — neural-network routines equal their reference (PyTorch) definitions.
 
   MODEL  NmVerif.NN.Conv (view::convnd pipeline), NmVerif.NN.Pool (index::shape_pool2d, slice_pool2d, pool2d window)
-  SPEC   NmVerif.NN.Spec (`outSize`, `poolOutSpec`, `specWindow`, `conv1dLoop` with `grpSpec`)
+         — the code of /repo with the fixes C17-conv-batch, C17-conv2d-dilation-pair, C17-pool-ceil-window
+         (and C17-max-pool-initial) applied; the group interleaving of conv_reshape_weight is still there (known finding)
+  SPEC   NmVerif.NN.Spec (`outSize`, `poolOutSpec`, `specWindow`, `conv1dLoop`, `conv2dLoop` with `grpSpec`)
   Floating-point tolerance is the harness's business; these theorems are about shapes and about which source
   elements are combined.
 -/
@@ -14,84 +16,61 @@ open NmVerif NmVerif.NN
 
 /-! ## pooling -/
 
-/-- `index::shape_pool2d` gives the standard extents on every axis pair, for any number of leading axes, in floor
-    mode and in ceil mode — on `PoolDom` (positive kernel that fits, positive stride, and in ceil mode the last
-    counted window starts inside the input; outside that domain see `pool_ceil_counterexample`). -/
+/-- `index::shape_pool2d` gives the PyTorch extents on both pooled axes, for any number of leading axes, in floor mode
+    (`⌊(n−k)/s⌋+1`) and in ceil mode (`⌈(n−k)/s⌉+1`, minus one when that last window would start at or beyond the end
+    of the input), for every positive kernel that fits and every positive stride. -/
 theorem pool_out_shape_eq_formula (lead : List Nat) (H W kh kw sh sw : Nat) (ceil : Bool)
-    (hH : PoolDom H kh sh ceil) (hW : PoolDom W kw sw ceil) :
+    (hH : PoolDom H kh sh) (hW : PoolDom W kw sw) :
     shapePool2d (lead ++ [H, W]) [kh, kw] [sh, sw] ceil
       = some (lead ++ [poolOutSpec H kh sh ceil, poolOutSpec W kw sw ceil]) := by
-  rw [shapePool2d_append, poolExtent_eq_spec hH, poolExtent_eq_spec hW]
+  rw [shapePool2d_append, poolExtent_eq_spec ceil hH, poolExtent_eq_spec ceil hW]
 
 example : shapePool2d [2, 3, 5, 7] [2, 3] [2, 2] true = some [2, 3, 3, 3] := by decide
-example : PoolDom 5 2 2 true ∧ PoolDom 7 3 2 true := by decide
+/-- the last-window rule fires: extent 4, kernel 1, stride 2, ceil mode gives 2 windows (starts 0, 2), not 3 -/
+example : shapePool2d [4, 4] [1, 1] [2, 2] true = some [2, 2] ∧ PoolDom 4 1 2 := by decide
 
 /-- floor mode is exactly `⌊(n + 2·0 − 1·(k−1) − 1)/s⌋ + 1` -/
 theorem pool_out_shape_floor (n k s : Nat) : poolOutSpec n k s false = outSize n k s 0 1 := rfl
 
-/-- the ceil-mode correction never fires when `stride ≤ kernel`: the whole of that parameter range is in the domain -/
-theorem pool_dom_of_stride_le_kernel (n k s : Nat) (ceil : Bool) (hk : 0 < k) (hkn : k ≤ n) (hs : 0 < s) (hsk : s ≤ k) :
-    PoolDom n k s ceil := poolDom_of_stride_le_kernel ceil hk hkn hs hsk
-
-/-- known finding pool.ceil-window-outside: extent 4, kernel 1, stride 2, ceil mode — the code counts 3 windows,
-    the third starts at index 4 = outside; PyTorch gives 2. -/
-theorem pool_ceil_counterexample : poolExtent 4 1 2 true = 3 ∧ poolOutSpec 4 1 2 true = 2 ∧ ¬ PoolDom 4 1 2 true := by decide
+private theorem inShape_last2 {lead li : List Nat} (hli : InShape li lead) {i j a b : Nat}
+    (h : InShape (li ++ [i, j]) (lead ++ [a, b])) : i < a ∧ j < b := by
+  induction lead generalizing li with
+  | nil =>
+    cases li with
+    | nil => simp only [List.nil_append, InShape] at h; exact ⟨h.1, h.2.1⟩
+    | cons x xs => simp [InShape] at hli
+  | cons x xs ih =>
+    cases li with
+    | nil => simp [InShape] at hli
+    | cons y ys =>
+      simp only [InShape] at hli
+      simp only [List.cons_append, InShape] at h
+      exact ih hli.2 h.2
 
 /-- the source elements `pool2d_t::operator()` hands to the reducer for output index `li ++ [i, j]` are exactly the
     reference window (rows `s_h·i ≤ a < min(s_h·i + k_h, H)`, columns likewise — overhang clipped), in row-major order. -/
 theorem pool_elem_eq_window_reduce (lead li : List Nat) (H W kh kw sh sw i j : Nat) (ceil : Bool)
-    (hH : PoolDom H kh sh ceil) (hW : PoolDom W kw sw ceil)
+    (hH : PoolDom H kh sh) (hW : PoolDom W kw sw)
     (hidx : InShape (li ++ [i, j]) (lead ++ [poolExtent H kh sh ceil, poolExtent W kw sw ceil]))
     (hli : InShape li lead) :
     poolWindow (lead ++ [H, W]) [kh, kw] [sh, sw] (li ++ [i, j]) = some (specWindow li H W kh kw sh sw i j) := by
-  have hij : InShape [i, j] [poolExtent H kh sh ceil, poolExtent W kw sw ceil] := by
-    have := hidx
-    clear hidx
-    induction lead generalizing li with
-    | nil =>
-      cases li with
-      | nil => simpa using this
-      | cons a as => simp [InShape] at hli
-    | cons x xs ih =>
-      cases li with
-      | nil => simp [InShape] at hli
-      | cons a as =>
-        simp only [InShape] at hli
-        simp only [List.cons_append, InShape] at this
-        exact ih as hli.2 this.2
-  simp only [InShape] at hij
-  exact poolWindow_eq_spec hli hH.1 hW.1 (pool_start_lt hH hij.1) (pool_start_lt hW hij.2.1)
+  have hij := inShape_last2 hli hidx
+  exact poolWindow_eq_spec hli hH.1 hW.1 (pool_start_lt hH hij.1) (pool_start_lt hW hij.2)
 
 example : poolWindow [2, 5, 5] [2, 2] [2, 2] [1, 2, 1] = some [[1, 4, 2], [1, 4, 3]] := by decide
 
 /-- every index of every window lies inside the input (the overhang of ceil mode is clipped, nothing is read
     outside) and the window is non-empty -/
 theorem pool_window_in_bounds (lead li : List Nat) (H W kh kw sh sw i j : Nat) (ceil : Bool)
-    (hH : PoolDom H kh sh ceil) (hW : PoolDom W kw sw ceil)
+    (hH : PoolDom H kh sh) (hW : PoolDom W kw sw)
     (hidx : InShape (li ++ [i, j]) (lead ++ [poolExtent H kh sh ceil, poolExtent W kw sw ceil]))
     (hli : InShape li lead) :
     ∃ win, poolWindow (lead ++ [H, W]) [kh, kw] [sh, sw] (li ++ [i, j]) = some win
       ∧ win ≠ [] ∧ ∀ x ∈ win, InShape x (lead ++ [H, W]) := by
   refine ⟨_, pool_elem_eq_window_reduce lead li H W kh kw sh sw i j ceil hH hW hidx hli, ?_, specWindow_inShape hli⟩
-  have hij : sh * i < H ∧ sw * j < W := by
-    have h := pool_elem_eq_window_reduce lead li H W kh kw sh sw i j ceil hH hW hidx hli
-    have hij : InShape [i, j] [poolExtent H kh sh ceil, poolExtent W kw sw ceil] := by
-      have := hidx
-      clear hidx h
-      induction lead generalizing li with
-      | nil =>
-        cases li with
-        | nil => simpa using this
-        | cons a as => simp [InShape] at hli
-      | cons x xs ih =>
-        cases li with
-        | nil => simp [InShape] at hli
-        | cons a as =>
-          simp only [InShape] at hli
-          simp only [List.cons_append, InShape] at this
-          exact ih as hli.2 this.2
-    simp only [InShape] at hij
-    exact ⟨pool_start_lt hH hij.1, pool_start_lt hW hij.2.1⟩
+  have hij := inShape_last2 hli hidx
+  have h1 := pool_start_lt hH hij.1
+  have h2 := pool_start_lt hW hij.2
   intro hnil
   have hmem : li ++ [sh * i, sw * j] ∈ specWindow li H W kh kw sh sw i j := by
     unfold specWindow
@@ -100,8 +79,7 @@ theorem pool_window_in_bounds (lead li : List Nat) (H W kh kw sh sw i j : Nat) (
   rw [hnil] at hmem
   simp at hmem
 
-example : PoolDom 5 3 2 true ∧ poolExtent 5 3 2 true = 2 := by decide
-
+example : PoolDom 5 3 2 ∧ poolExtent 5 3 2 true = 2 := by decide
 
 /-! ## convolution -/
 
@@ -124,132 +102,70 @@ theorem intForm_form (p : Option Nat) : IntForm (form p) := by
   | none => exact Or.inl rfl
   | some v => exact Or.inr ⟨v, rfl⟩
 
-/-- **conv1d, any stride / zero padding / dilation / groups / optional bias, each passed as `None` or as an integer.**
-    For an input `(1, g·Cg, L)`, a weight `(Og·g, Cg, K)` (so `groups = g` is any common divisor of the channel counts)
-    and an optional bias `(Og·g)`, with the dilated kernel fitting the padded input, the `view::convnd` pipeline
-    (reshape by groups → pad → sliding_window of input and of the dilation-expanded weight → multiply → sum → reshape →
-    bias → strided slice) is defined, has the extent `⌊(L + 2p − d(K−1) − 1)/s⌋ + 1`, and every element is the nested
-    loop `bias[o] + Σ_c Σ_k xpad[grp(o)·Cg + c, l·s + k·d] · w[o,c,k]` — with the group of output channel `o` being
-    `o % g` (`grpCode`), which is what the code does.  Quantified over all `x`, `w` of integers, so the equality of the
-    two sums is an identity of the (input index, weight index) term sets. -/
-theorem conv1d_eq_code_loop (x w : Arr Int) (bias : Option (Arr Int)) (Og g Cg L K : Nat) (stride padding dilation : Option Nat)
-    (hx : x.shape = [1, g * Cg, L]) (hw : w.shape = [Og * g, Cg, K]) (hb : ∀ b, bias = some b → b.shape = [Og * g])
+/-- **conv1d, any batch / stride / zero padding / dilation / groups / optional bias, each option passed as `None` or as an
+    integer.**  For an input `(N, g·Cg, L)`, a weight `(Og·g, Cg, K)` (so `groups = g` is any common divisor of the
+    channel counts) and an optional bias `(Og·g)`, with the dilated kernel fitting the padded input, the
+    `view::convnd` pipeline (reshape by groups → pad → sliding_window of input and of the dilation-expanded weight →
+    multiply → sum → reshape → bias → strided slice) is defined, has the extent `⌊(L + 2p − d(K−1) − 1)/s⌋ + 1`, and
+    every element is the nested loop `bias[o] + Σ_c Σ_k xpad[n, grp(o)·Cg + c, l·s + k·d] · w[o,c,k]` — with the group of
+    output channel `o` being `o % g` (`grpCode`), which is what the code does.  Quantified over all integer `x`, `w`,
+    so the equality of the two sums is an identity of the (input index, weight index) term sets. -/
+theorem conv1d_eq_code_loop (x w : Arr Int) (bias : Option (Arr Int)) (N Og g Cg L K : Nat) (stride padding dilation : Option Nat)
+    (hx : x.shape = [N, g * Cg, L]) (hw : w.shape = [Og * g, Cg, K]) (hb : ∀ b, bias = some b → b.shape = [Og * g])
     (hOg : 0 < Og) (hg : 0 < g) (hK : 0 < K)
     (hs : ∀ v, stride = some v → 0 < v) (hd : ∀ v, dilation = some v → 0 < v)
     (hfit : Fits L K (paddingOf padding) (dilationOf dilation)) :
     ∃ r, convnd 1 x w bias (form stride) (form padding) (form dilation) g = .ok r ∧
-      r.shape = [1, Og * g, outSize L K (strideOf stride) (paddingOf padding) (dilationOf dilation)] ∧
-      ∀ o l, o < Og * g → l < outSize L K (strideOf stride) (paddingOf padding) (dilationOf dilation) →
-        r.get [0, o, l] = conv1dLoop (grpCode g) x w bias L Cg K (strideOf stride) (paddingOf padding) (dilationOf dilation) o l := by
+      r.shape = [N, Og * g, outSize L K (strideOf stride) (paddingOf padding) (dilationOf dilation)] ∧
+      ∀ n o l, n < N → o < Og * g → l < outSize L K (strideOf stride) (paddingOf padding) (dilationOf dilation) →
+        r.get [n, o, l] = conv1dLoop (grpCode g) x w bias L Cg K (strideOf stride) (paddingOf padding) (dilationOf dilation) n o l := by
   have hfit' : (K - 1) * dilV (form dilation) + 1 ≤ L + 2 * padVal (form padding) := by
     rw [dilV_form, padVal_form, Nat.mul_comm]; exact hfit
   have := convnd1_eq_codeLoop (bias := bias) hx hw hb hOg hg hK (posForm_form hs) (intForm_form padding) (posForm_form hd) hfit'
   simpa only [strideVal_form, padVal_form, dilV_form] using this
 
-/-- output shape of conv1d = the standard formula, for all parameters (a corollary of `conv1d_eq_code_loop`; the
-    shape does not depend on the group assignment, so it holds for every `groups`) -/
-theorem conv_out_shape_eq_formula (x w : Arr Int) (bias : Option (Arr Int)) (Og g Cg L K : Nat) (stride padding dilation : Option Nat)
-    (hx : x.shape = [1, g * Cg, L]) (hw : w.shape = [Og * g, Cg, K]) (hb : ∀ b, bias = some b → b.shape = [Og * g])
+/-- output shape of conv1d = the standard formula, for every batch and every `groups` (corollary; the shape does not
+    depend on the group assignment) -/
+theorem conv_out_shape_eq_formula (x w : Arr Int) (bias : Option (Arr Int)) (N Og g Cg L K : Nat) (stride padding dilation : Option Nat)
+    (hx : x.shape = [N, g * Cg, L]) (hw : w.shape = [Og * g, Cg, K]) (hb : ∀ b, bias = some b → b.shape = [Og * g])
     (hOg : 0 < Og) (hg : 0 < g) (hK : 0 < K)
     (hs : ∀ v, stride = some v → 0 < v) (hd : ∀ v, dilation = some v → 0 < v)
     (hfit : Fits L K (paddingOf padding) (dilationOf dilation)) :
     ∃ r, convnd 1 x w bias (form stride) (form padding) (form dilation) g = .ok r ∧
-      r.shape = [1, Og * g, outSize L K (strideOf stride) (paddingOf padding) (dilationOf dilation)] := by
-  obtain ⟨r, h1, h2, _⟩ := conv1d_eq_code_loop x w bias Og g Cg L K stride padding dilation hx hw hb hOg hg hK hs hd hfit
+      r.shape = [N, Og * g, outSize L K (strideOf stride) (paddingOf padding) (dilationOf dilation)] := by
+  obtain ⟨r, h1, h2, _⟩ := conv1d_eq_code_loop x w bias N Og g Cg L K stride padding dilation hx hw hb hOg hg hK hs hd hfit
   exact ⟨r, h1, h2⟩
 
-/-- **conv1d = the PyTorch nested loop** (group of output channel `o` is `o / (O/groups)`) on the domain where the
-    code's group assignment agrees with it: `groups = 1`, or one output channel per group (`O = groups`, e.g.
-    depthwise).  Any stride, padding, dilation, bias.  Outside: `conv1d_groups_counterexample`. -/
-theorem conv1d_eq_nested_loop (x w : Arr Int) (bias : Option (Arr Int)) (Og g Cg L K : Nat) (stride padding dilation : Option Nat)
-    (hx : x.shape = [1, g * Cg, L]) (hw : w.shape = [Og * g, Cg, K]) (hb : ∀ b, bias = some b → b.shape = [Og * g])
+/-- **conv1d = the PyTorch nested loop** (group of output channel `o` is `o / (O/groups)`), for any batch, stride,
+    padding, dilation and bias, on the domain where the code's group assignment agrees with PyTorch's: `groups = 1`,
+    or one output channel per group (`O = groups`, e.g. depthwise).  Outside: `conv1d_groups_counterexample`. -/
+theorem conv1d_eq_nested_loop (x w : Arr Int) (bias : Option (Arr Int)) (N Og g Cg L K : Nat) (stride padding dilation : Option Nat)
+    (hx : x.shape = [N, g * Cg, L]) (hw : w.shape = [Og * g, Cg, K]) (hb : ∀ b, bias = some b → b.shape = [Og * g])
     (hOg : 0 < Og) (hg : 0 < g) (hK : 0 < K)
     (hs : ∀ v, stride = some v → 0 < v) (hd : ∀ v, dilation = some v → 0 < v)
     (hfit : Fits L K (paddingOf padding) (dilationOf dilation))
     (hdom : g = 1 ∨ Og = 1) :
     ∃ r, convnd 1 x w bias (form stride) (form padding) (form dilation) g = .ok r ∧
-      r.shape = [1, Og * g, outSize L K (strideOf stride) (paddingOf padding) (dilationOf dilation)] ∧
-      ∀ o l, o < Og * g → l < outSize L K (strideOf stride) (paddingOf padding) (dilationOf dilation) →
-        r.get [0, o, l] = conv1dLoop (grpSpec (Og * g) g) x w bias L Cg K (strideOf stride) (paddingOf padding) (dilationOf dilation) o l := by
-  obtain ⟨r, h1, h2, h3⟩ := conv1d_eq_code_loop x w bias Og g Cg L K stride padding dilation hx hw hb hOg hg hK hs hd hfit
-  refine ⟨r, h1, h2, fun o l ho hl => ?_⟩
-  rw [h3 o l ho hl]
-  exact conv1dLoop_congr_grp (grpCode_eq_grpSpec hdom ho) x w bias L Cg K _ _ _ l
+      r.shape = [N, Og * g, outSize L K (strideOf stride) (paddingOf padding) (dilationOf dilation)] ∧
+      ∀ n o l, n < N → o < Og * g → l < outSize L K (strideOf stride) (paddingOf padding) (dilationOf dilation) →
+        r.get [n, o, l] = conv1dLoop (grpSpec (Og * g) g) x w bias L Cg K (strideOf stride) (paddingOf padding) (dilationOf dilation) n o l := by
+  obtain ⟨r, h1, h2, h3⟩ := conv1d_eq_code_loop x w bias N Og g Cg L K stride padding dilation hx hw hb hOg hg hK hs hd hfit
+  refine ⟨r, h1, h2, fun n o l hn ho hl => ?_⟩
+  rw [h3 n o l hn ho hl]
+  exact conv1dLoop_congr_grp (grpCode_eq_grpSpec hdom ho) x w bias L Cg K _ _ _ n l
 
-/-- **conv2d** (input `(1, g·Cg, H, W)`, weight `(Og·g, Cg, KH, KW)`, optional bias; stride / padding / dilation each `None`
-    or one integer applied to both planes): the `view::convnd` pipeline with `n_planes = 2` is defined, has the extents
-    `⌊(H + 2p − d(KH−1) − 1)/s⌋ + 1`, `⌊(W + 2p − d(KW−1) − 1)/s⌋ + 1`, and every element is the nested loop
-    `bias[o] + Σ_c Σ_kh Σ_kw xpad[grp(o)·Cg + c, i·s + kh·d, j·s + kw·d] · w[o,c,kh,kw]` with `grp(o) = o % g` (the code's
-    assignment).  The pair forms `(s_h, s_w)`, `(p_h, p_w)`, `(d_h, d_w)` are covered by the correspondence run only
-    (and the dilation pair is a known finding). -/
-theorem conv2d_eq_code_loop (x w : Arr Int) (bias : Option (Arr Int)) (Og g Cg H W KH KW : Nat) (stride padding dilation : Option Nat)
-    (hx : x.shape = [1, g * Cg, H, W]) (hw : w.shape = [Og * g, Cg, KH, KW]) (hb : ∀ b, bias = some b → b.shape = [Og * g])
-    (hOg : 0 < Og) (hg : 0 < g) (hKH : 0 < KH) (hKW : 0 < KW)
-    (hs : ∀ v, stride = some v → 0 < v) (hd : ∀ v, dilation = some v → 0 < v)
-    (hfH : Fits H KH (paddingOf padding) (dilationOf dilation)) (hfW : Fits W KW (paddingOf padding) (dilationOf dilation)) :
-    ∃ r, convnd 2 x w bias (form stride) (form padding) (form dilation) g = .ok r ∧
-      r.shape = [1, Og * g, outSize H KH (strideOf stride) (paddingOf padding) (dilationOf dilation),
-                 outSize W KW (strideOf stride) (paddingOf padding) (dilationOf dilation)] ∧
-      ∀ o i j, o < Og * g → i < outSize H KH (strideOf stride) (paddingOf padding) (dilationOf dilation) →
-        j < outSize W KW (strideOf stride) (paddingOf padding) (dilationOf dilation) →
-        r.get [0, o, i, j] = conv2dLoop (grpCode g) x w bias H W Cg KH KW (strideOf stride) (paddingOf padding) (dilationOf dilation) o i j := by
-  have hfH' : (KH - 1) * dilV (form dilation) + 1 ≤ H + 2 * padVal (form padding) := by
-    rw [dilV_form, padVal_form, Nat.mul_comm]; exact hfH
-  have hfW' : (KW - 1) * dilV (form dilation) + 1 ≤ W + 2 * padVal (form padding) := by
-    rw [dilV_form, padVal_form, Nat.mul_comm]; exact hfW
-  have := convnd2_eq_codeLoop (bias := bias) hx hw hb hOg hg hKH hKW (posForm_form hs) (intForm_form padding) (posForm_form hd) hfH' hfW'
-  simpa only [strideVal_form, padVal_form, dilV_form] using this
-
-/-- conv2d output shape = the standard formula on both planes, every `groups` -/
-theorem conv2d_out_shape_eq_formula (x w : Arr Int) (bias : Option (Arr Int)) (Og g Cg H W KH KW : Nat) (stride padding dilation : Option Nat)
-    (hx : x.shape = [1, g * Cg, H, W]) (hw : w.shape = [Og * g, Cg, KH, KW]) (hb : ∀ b, bias = some b → b.shape = [Og * g])
-    (hOg : 0 < Og) (hg : 0 < g) (hKH : 0 < KH) (hKW : 0 < KW)
-    (hs : ∀ v, stride = some v → 0 < v) (hd : ∀ v, dilation = some v → 0 < v)
-    (hfH : Fits H KH (paddingOf padding) (dilationOf dilation)) (hfW : Fits W KW (paddingOf padding) (dilationOf dilation)) :
-    ∃ r, convnd 2 x w bias (form stride) (form padding) (form dilation) g = .ok r ∧
-      r.shape = [1, Og * g, outSize H KH (strideOf stride) (paddingOf padding) (dilationOf dilation),
-                 outSize W KW (strideOf stride) (paddingOf padding) (dilationOf dilation)] := by
-  obtain ⟨r, h1, h2, _⟩ := conv2d_eq_code_loop x w bias Og g Cg H W KH KW stride padding dilation hx hw hb hOg hg hKH hKW hs hd hfH hfW
-  exact ⟨r, h1, h2⟩
-
-/-- **conv2d = the PyTorch nested loop** on the domain `groups = 1` or one output channel per group -/
-theorem conv2d_eq_nested_loop (x w : Arr Int) (bias : Option (Arr Int)) (Og g Cg H W KH KW : Nat) (stride padding dilation : Option Nat)
-    (hx : x.shape = [1, g * Cg, H, W]) (hw : w.shape = [Og * g, Cg, KH, KW]) (hb : ∀ b, bias = some b → b.shape = [Og * g])
-    (hOg : 0 < Og) (hg : 0 < g) (hKH : 0 < KH) (hKW : 0 < KW)
-    (hs : ∀ v, stride = some v → 0 < v) (hd : ∀ v, dilation = some v → 0 < v)
-    (hfH : Fits H KH (paddingOf padding) (dilationOf dilation)) (hfW : Fits W KW (paddingOf padding) (dilationOf dilation))
-    (hdom : g = 1 ∨ Og = 1) :
-    ∃ r, convnd 2 x w bias (form stride) (form padding) (form dilation) g = .ok r ∧
-      r.shape = [1, Og * g, outSize H KH (strideOf stride) (paddingOf padding) (dilationOf dilation),
-                 outSize W KW (strideOf stride) (paddingOf padding) (dilationOf dilation)] ∧
-      ∀ o i j, o < Og * g → i < outSize H KH (strideOf stride) (paddingOf padding) (dilationOf dilation) →
-        j < outSize W KW (strideOf stride) (paddingOf padding) (dilationOf dilation) →
-        r.get [0, o, i, j] = conv2dLoop (grpSpec (Og * g) g) x w bias H W Cg KH KW (strideOf stride) (paddingOf padding) (dilationOf dilation) o i j := by
-  obtain ⟨r, h1, h2, h3⟩ := conv2d_eq_code_loop x w bias Og g Cg H W KH KW stride padding dilation hx hw hb hOg hg hKH hKW hs hd hfH hfW
-  refine ⟨r, h1, h2, fun o i j ho hi hj => ?_⟩
-  rw [h3 o i j ho hi hj]
-  exact conv2dLoop_congr_grp (grpCode_eq_grpSpec hdom ho) x w bias H W Cg KH KW _ _ _ i j
-
-/-- non-vacuity for conv2d: C = 2 (groups 2, depthwise), 4×5 input, 2×3 kernel, stride 2, padding 1, dilation 1 -/
-example : ∃ r, convnd 2 ⟨[1, 2, 4, 5], fun _ => 1⟩ ⟨[2, 1, 2, 3], fun _ => 1⟩ none (form (some 2)) (form (some 1)) (form none) 2 = .ok r ∧
-    r.shape = [1, 2, 3, 3] := by
-  obtain ⟨r, h1, h2⟩ := conv2d_out_shape_eq_formula ⟨[1, 2, 4, 5], fun _ => 1⟩ ⟨[2, 1, 2, 3], fun _ => 1⟩ none 1 2 1 4 5 2 3 (some 2) (some 1) none
-    rfl rfl (by intro b h; cases h) (by decide) (by decide) (by decide) (by decide) (by intro v h; cases h; decide) (by intro v h; cases h)
-    (by decide) (by decide)
-  exact ⟨r, h1, h2⟩
-
-/-- witnesses used by the examples / counterexamples: `x[0,c,j] = 10·c + j + 1`, `w[o,c,k] = 100·o + 10·c + k + 1` -/
-def xW (shape : Shape) : Arr Int := ⟨shape, fun i => match i with | [_, c, j] => (10 * c + j + 1 : Nat) | _ => 0⟩
+/-- witnesses used by the examples: `x[n,c,j] = 100·n + 10·c + j + 1`, `w[o,c,k] = 100·o + 10·c + k + 1` -/
+def xW (shape : Shape) : Arr Int := ⟨shape, fun i => match i with | [n, c, j] => (100 * n + 10 * c + j + 1 : Nat) | _ => 0⟩
 def wW (shape : Shape) : Arr Int := ⟨shape, fun i => match i with | [o, c, k] => (100 * o + 10 * c + k + 1 : Nat) | _ => 0⟩
 
-/-- non-vacuity: C = 4, groups = 2, O = 2, L = 5, K = 2, stride 2, padding 1, dilation 2 — defined, shape (1,2,3), and
-    element (0,1,2) is the nested loop -/
-example : ∃ r, convnd 1 (xW [1, 4, 5]) (wW [2, 2, 2]) none (form (some 2)) (form (some 1)) (form (some 2)) 2 = .ok r ∧
-    r.shape = [1, 2, 3] ∧ r.get [0, 1, 2] = conv1dLoop (grpSpec 2 2) (xW [1, 4, 5]) (wW [2, 2, 2]) none 5 2 2 2 1 2 1 2 := by
-  obtain ⟨r, h1, h2, h3⟩ := conv1d_eq_nested_loop (xW [1, 4, 5]) (wW [2, 2, 2]) none 1 2 2 5 2 (some 2) (some 1) (some 2)
+/-- non-vacuity: batch 2, C = 4, groups = 2, O = 2 (depthwise-like), L = 5, K = 2, stride 2, padding 1, dilation 2 —
+    defined, shape (2,2,3), and element (1,1,2) is the PyTorch nested loop -/
+example : ∃ r, convnd 1 (xW [2, 4, 5]) (wW [2, 2, 2]) none (form (some 2)) (form (some 1)) (form (some 2)) 2 = .ok r ∧
+    r.shape = [2, 2, 3] ∧ r.get [1, 1, 2] = conv1dLoop (grpSpec 2 2) (xW [2, 4, 5]) (wW [2, 2, 2]) none 5 2 2 2 1 2 1 1 2 := by
+  obtain ⟨r, h1, h2, h3⟩ := conv1d_eq_nested_loop (xW [2, 4, 5]) (wW [2, 2, 2]) none 2 1 2 2 5 2 (some 2) (some 1) (some 2)
     rfl rfl (by intro b h; cases h) (by decide) (by decide) (by decide) (by intro v h; cases h; decide) (by intro v h; cases h; decide)
     (by decide) (Or.inr rfl)
-  exact ⟨r, h1, h2, h3 1 2 (by decide) (by decide)⟩
+  exact ⟨r, h1, h2, h3 1 1 2 (by decide) (by decide) (by decide)⟩
 
 /-- element read from an evaluation (0 when undefined) -/
 def Res.getD (r : Res (Arr Int)) (i : Idx) : Int := match r with | .ok a => a.get i | _ => 0
@@ -262,24 +178,93 @@ theorem conv1d_groups_counterexample :
     let x : Arr Int := ⟨[1, 2, 1], fun i => match i with | [_, c, _] => (c + 1 : Nat) | _ => 0⟩
     let w : Arr Int := ⟨[4, 1, 1], fun _ => 1⟩
     Res.getD (convnd 1 x w none .none .none .none 2) [0, 1, 0] = 2
-      ∧ conv1dLoop (grpSpec 4 2) x w none 1 1 1 1 0 1 1 0 = 1
-      ∧ conv1dLoop (grpCode 2) x w none 1 1 1 1 0 1 1 0 = 2 := by
+      ∧ conv1dLoop (grpSpec 4 2) x w none 1 1 1 1 0 1 0 1 0 = 1
+      ∧ conv1dLoop (grpCode 2) x w none 1 1 1 1 0 1 0 1 0 = 2 := by
   decide
 
-/-- known finding conv.batch-gt-1: a batch of 2 has no defined result (`conv_reshape_input` drops the batch extent,
-    the reshape is Nothing) — with padding None the view is Nothing, with an integer padding the Nothing is unwrapped. -/
-theorem conv1d_batch_counterexample :
-    (convnd 1 (xW [2, 1, 2]) (wW [1, 1, 1]) none .none .none .none 1).isOk = false
-      ∧ (convnd 1 (xW [2, 1, 2]) (wW [1, 1, 1]) none .none (.int 0) .none 1).isOk = false := by
+/-- the repaired batch handling as a positive instance: a batch of 2 is defined and keeps its extent -/
+example : Res.shapeD (convnd 1 (xW [2, 1, 2]) (wW [1, 1, 1]) none .none (.int 0) .none 1) = [2, 1, 2] := by decide
+
+/-- **conv2d** (input `(N, g·Cg, H, W)`, weight `(Og·g, Cg, KH, KW)`, optional bias) for stride, padding and dilation each
+    given as `None`, one integer, or a pair `(h, w)` — per-plane values `(sH,sW)`, `(pH,pW)`, `(dH,dW)` =
+    `vals2 default arg`: the pipeline with `n_planes = 2` is defined, has the extents
+    `⌊(H + 2pH − dH(KH−1) − 1)/sH⌋ + 1`, `⌊(W + 2pW − dW(KW−1) − 1)/sW⌋ + 1`, and every element is
+    `bias[o] + Σ_c Σ_kh Σ_kw xpad[n, grp(o)·Cg + c, i·sH + kh·dH, j·sW + kw·dW] · w[o,c,kh,kw]` with `grp(o) = o % g`
+    (the code's assignment), for every `groups`. -/
+theorem conv2d_eq_code_loop (x w : Arr Int) (bias : Option (Arr Int)) (N Og g Cg H W KH KW : Nat) (stride padding dilation : PArg)
+    (hx : x.shape = [N, g * Cg, H, W]) (hw : w.shape = [Og * g, Cg, KH, KW]) (hb : ∀ b, bias = some b → b.shape = [Og * g])
+    (hOg : 0 < Og) (hg : 0 < g) (hKH : 0 < KH) (hKW : 0 < KW)
+    (hs : PosForm2 stride) (hp : Form2 padding) (hd : PosForm2 dilation)
+    (hfH : Fits H KH (vals2 0 padding).1 (vals2 1 dilation).1) (hfW : Fits W KW (vals2 0 padding).2 (vals2 1 dilation).2) :
+    ∃ r, convnd 2 x w bias stride padding dilation g = .ok r ∧
+      r.shape = [N, Og * g, outSize H KH (vals2 1 stride).1 (vals2 0 padding).1 (vals2 1 dilation).1,
+                 outSize W KW (vals2 1 stride).2 (vals2 0 padding).2 (vals2 1 dilation).2] ∧
+      ∀ n o i j, n < N → o < Og * g → i < outSize H KH (vals2 1 stride).1 (vals2 0 padding).1 (vals2 1 dilation).1 →
+        j < outSize W KW (vals2 1 stride).2 (vals2 0 padding).2 (vals2 1 dilation).2 →
+        r.get [n, o, i, j] = conv2dLoop (grpCode g) x w bias H W Cg KH KW (vals2 1 stride).1 (vals2 1 stride).2
+          (vals2 0 padding).1 (vals2 0 padding).2 (vals2 1 dilation).1 (vals2 1 dilation).2 n o i j := by
+  have hfH' : (KH - 1) * (vals2 1 dilation).1 + 1 ≤ H + 2 * (vals2 0 padding).1 := by rw [Nat.mul_comm]; exact hfH
+  have hfW' : (KW - 1) * (vals2 1 dilation).2 + 1 ≤ W + 2 * (vals2 0 padding).2 := by rw [Nat.mul_comm]; exact hfW
+  exact convnd2_eq_codeLoop (bias := bias) hx hw hb hOg hg hKH hKW hs hp hd hfH' hfW'
+
+/-- conv2d output shape = the standard formula on both planes, every batch, every `groups` (corollary) -/
+theorem conv2d_out_shape_eq_formula (x w : Arr Int) (bias : Option (Arr Int)) (N Og g Cg H W KH KW : Nat) (stride padding dilation : PArg)
+    (hx : x.shape = [N, g * Cg, H, W]) (hw : w.shape = [Og * g, Cg, KH, KW]) (hb : ∀ b, bias = some b → b.shape = [Og * g])
+    (hOg : 0 < Og) (hg : 0 < g) (hKH : 0 < KH) (hKW : 0 < KW)
+    (hs : PosForm2 stride) (hp : Form2 padding) (hd : PosForm2 dilation)
+    (hfH : Fits H KH (vals2 0 padding).1 (vals2 1 dilation).1) (hfW : Fits W KW (vals2 0 padding).2 (vals2 1 dilation).2) :
+    ∃ r, convnd 2 x w bias stride padding dilation g = .ok r ∧
+      r.shape = [N, Og * g, outSize H KH (vals2 1 stride).1 (vals2 0 padding).1 (vals2 1 dilation).1,
+                 outSize W KW (vals2 1 stride).2 (vals2 0 padding).2 (vals2 1 dilation).2] := by
+  obtain ⟨r, h1, h2, _⟩ := conv2d_eq_code_loop x w bias N Og g Cg H W KH KW stride padding dilation hx hw hb hOg hg hKH hKW hs hp hd hfH hfW
+  exact ⟨r, h1, h2⟩
+
+/-- **conv2d = the PyTorch nested loop** on the domain `groups = 1` or one output channel per group, any batch,
+    None / int / pair forms of stride, padding, dilation.  Outside: `conv2d_groups_counterexample`. -/
+theorem conv2d_eq_nested_loop (x w : Arr Int) (bias : Option (Arr Int)) (N Og g Cg H W KH KW : Nat) (stride padding dilation : PArg)
+    (hx : x.shape = [N, g * Cg, H, W]) (hw : w.shape = [Og * g, Cg, KH, KW]) (hb : ∀ b, bias = some b → b.shape = [Og * g])
+    (hOg : 0 < Og) (hg : 0 < g) (hKH : 0 < KH) (hKW : 0 < KW)
+    (hs : PosForm2 stride) (hp : Form2 padding) (hd : PosForm2 dilation)
+    (hfH : Fits H KH (vals2 0 padding).1 (vals2 1 dilation).1) (hfW : Fits W KW (vals2 0 padding).2 (vals2 1 dilation).2)
+    (hdom : g = 1 ∨ Og = 1) :
+    ∃ r, convnd 2 x w bias stride padding dilation g = .ok r ∧
+      r.shape = [N, Og * g, outSize H KH (vals2 1 stride).1 (vals2 0 padding).1 (vals2 1 dilation).1,
+                 outSize W KW (vals2 1 stride).2 (vals2 0 padding).2 (vals2 1 dilation).2] ∧
+      ∀ n o i j, n < N → o < Og * g → i < outSize H KH (vals2 1 stride).1 (vals2 0 padding).1 (vals2 1 dilation).1 →
+        j < outSize W KW (vals2 1 stride).2 (vals2 0 padding).2 (vals2 1 dilation).2 →
+        r.get [n, o, i, j] = conv2dLoop (grpSpec (Og * g) g) x w bias H W Cg KH KW (vals2 1 stride).1 (vals2 1 stride).2
+          (vals2 0 padding).1 (vals2 0 padding).2 (vals2 1 dilation).1 (vals2 1 dilation).2 n o i j := by
+  obtain ⟨r, h1, h2, h3⟩ := conv2d_eq_code_loop x w bias N Og g Cg H W KH KW stride padding dilation hx hw hb hOg hg hKH hKW hs hp hd hfH hfW
+  refine ⟨r, h1, h2, fun n o i j hn ho hi hj => ?_⟩
+  rw [h3 n o i j hn ho hi hj]
+  exact conv2dLoop_congr_grp (grpCode_eq_grpSpec hdom ho) x w bias H W Cg KH KW _ _ _ _ _ _ n i j
+
+/-- non-vacuity for conv2d, with pair forms: batch 2, C = 2 (groups 2, depthwise), 4×5 input, 2×3 kernel, stride (2,1),
+    padding (1,0), dilation (1,2) — extents ⌊(4+2−1−1)/2⌋+1 = 3 and ⌊(5+0−4−1)/1⌋+1 = 1 -/
+example : ∃ r, convnd 2 ⟨[2, 2, 4, 5], fun _ => 1⟩ ⟨[2, 1, 2, 3], fun _ => 1⟩ none (.arr [2, 1]) (.arr [1, 0]) (.arr [1, 2]) 2 = .ok r ∧
+    r.shape = [2, 2, 3, 1] := by
+  obtain ⟨r, h1, h2⟩ := conv2d_out_shape_eq_formula ⟨[2, 2, 4, 5], fun _ => 1⟩ ⟨[2, 1, 2, 3], fun _ => 1⟩ none 2 1 2 1 4 5 2 3
+    (.arr [2, 1]) (.arr [1, 0]) (.arr [1, 2])
+    rfl rfl (by intro b h; cases h) (by decide) (by decide) (by decide) (by decide)
+    (Or.inr (Or.inr ⟨2, 1, by decide, by decide, rfl⟩)) (Or.inr (Or.inr ⟨1, 0, rfl⟩)) (Or.inr (Or.inr ⟨1, 2, by decide, by decide, rfl⟩))
+    (by decide) (by decide)
+  exact ⟨r, h1, h2⟩
+
+/-- known finding conv.groups-interleaved, conv2d: C = 2, O = 4, groups = 2, 1×1 input and kernel, weights all 1,
+    `x = (1, 2)`: output channel 1 should read input channel 0 (value 1), the code reads channel 1 (value 2). -/
+theorem conv2d_groups_counterexample :
+    let x : Arr Int := ⟨[1, 2, 1, 1], fun i => match i with | [_, c, _, _] => (c + 1 : Nat) | _ => 0⟩
+    let w : Arr Int := ⟨[4, 1, 1, 1], fun _ => 1⟩
+    Res.getD (convnd 2 x w none .none .none .none 2) [0, 1, 0, 0] = 2
+      ∧ conv2dLoop (grpSpec 4 2) x w none 1 1 1 1 1 1 1 0 0 1 1 0 1 0 0 = 1 := by
   decide
 
-/-- known finding conv2d.dilation-pair-reversed: input (1,1,1,3), kernel (1,2), dilation pair (d_h, d_w) = (2, 1):
-    the reference extent is (1, 2); the code dilates W by `d_h` and obtains (1, 1). -/
-theorem conv2d_dilation_pair_counterexample :
+/-- the repaired dilation pair as a positive instance: input (1,1,1,3), kernel (1,2), dilation pair (d_h, d_w) = (2, 1)
+    gives the extent (1, 2) -/
+example :
     let x : Arr Int := ⟨[1, 1, 1, 3], fun _ => 1⟩
     let w : Arr Int := ⟨[1, 1, 1, 2], fun _ => 1⟩
-    Res.shapeD (convnd 2 x w none .none .none (.arr [2, 1]) 1) = [1, 1, 1, 1]
-      ∧ [1, 1, outSize 1 1 1 0 2, outSize 3 2 1 0 1] = [1, 1, 1, 2] := by
+    Res.shapeD (convnd 2 x w none .none .none (.arr [2, 1]) 1) = [1, 1, 1, 2] := by
   decide
 
 end NmVerif.Props.C17
